@@ -1,0 +1,88 @@
+//go:build verif
+
+package payloads
+
+import (
+	"github.com/ovh/kmip-go"
+	"github.com/ovh/kmip-go/ttlv"
+)
+
+// Mirror lemmas (C01) for the payloads whose decoder is written by hand while their encoder is the
+// reflective plan derived from the struct definition: every element the definition emits is read back into
+// the field it came from, and no element is left unread. See the root package's zz_verif_lemmas.go.
+// Compiled only with -tags verif.
+
+//@ func (*ImportRequestPayload).TagDecodeTTLV$1
+//@   inline
+//@   loop 0 invariant -1 <= rangeindex && rangeindex < len(pl.Attribute)
+
+// The fields that precede the attribute list are decoded whatever happens afterwards (the search for the
+// Object Type attribute may fail), so their equalities are stated unconditionally.
+//
+//@ lemma lemmaMirrorImportRequest
+//@   requires pl != nil && out != nil && pl != out && pl.Object != nil && len(pl.Attribute) > 0 && !tapeDropped
+//@   requires out.UniqueIdentifier == "" && !out.ReplaceExisting && out.KeyWrapType == 0 && len(out.Attribute) == 0 && out.Object == nil
+//@   usebody (*Encoder).Struct$1
+//@   usebody (*Decoder).Struct$1
+//@   ensures !tapeDropped
+//@   ensures out.UniqueIdentifier == pl.UniqueIdentifier && out.ReplaceExisting == pl.ReplaceExisting && out.KeyWrapType == pl.KeyWrapType
+//@   ensures len(out.Attribute) == len(pl.Attribute) && arr(out.Attribute) == arr(pl.Attribute)
+//@   ensures err == nil ==> end && out.Object == pl.Object
+
+func lemmaMirrorImportRequest(pl, out *ImportRequestPayload) (err error, end bool) {
+	e := ttlv.VerifModelEncoder()
+	e.TagAny(kmip.TagRequestPayload, pl)
+	d := ttlv.VerifModelDecoder(&e)
+	err = out.TagDecodeTTLV(&d, kmip.TagRequestPayload)
+	return err, ttlv.VerifTapeEnd(&d)
+}
+
+//@ lemma lemmaMirrorGetResponse
+//@   requires pl != nil && out != nil && pl != out && pl.Object != nil && !tapeDropped
+//@   requires out.ObjectType == 0 && out.UniqueIdentifier == "" && out.Object == nil
+//@   usebody (*Encoder).Struct$1
+//@   usebody (*Decoder).Struct$1
+//@   ensures !tapeDropped
+//@   ensures err == nil ==> end && out.ObjectType == pl.ObjectType && out.UniqueIdentifier == pl.UniqueIdentifier && out.Object == pl.Object
+
+func lemmaMirrorGetResponse(pl, out *GetResponsePayload) (err error, end bool) {
+	e := ttlv.VerifModelEncoder()
+	e.TagAny(kmip.TagResponsePayload, pl)
+	d := ttlv.VerifModelDecoder(&e)
+	err = out.TagDecodeTTLV(&d, kmip.TagResponsePayload)
+	return err, ttlv.VerifTapeEnd(&d)
+}
+
+//@ lemma lemmaMirrorExportResponse
+//@   requires pl != nil && out != nil && pl != out && pl.Object != nil && !tapeDropped
+//@   requires out.ObjectType == 0 && out.UniqueIdentifier == "" && len(out.Attribute) == 0 && out.Object == nil
+//@   usebody (*Encoder).Struct$1
+//@   usebody (*Decoder).Struct$1
+//@   ensures !tapeDropped
+//@   ensures err == nil ==> end && out.ObjectType == pl.ObjectType && out.UniqueIdentifier == pl.UniqueIdentifier && out.Object == pl.Object
+//@   ensures err == nil && len(pl.Attribute) > 0 ==> len(out.Attribute) == len(pl.Attribute) && arr(out.Attribute) == arr(pl.Attribute)
+
+func lemmaMirrorExportResponse(pl, out *ExportResponsePayload) (err error, end bool) {
+	e := ttlv.VerifModelEncoder()
+	e.TagAny(kmip.TagResponsePayload, pl)
+	d := ttlv.VerifModelDecoder(&e)
+	err = out.TagDecodeTTLV(&d, kmip.TagResponsePayload)
+	return err, ttlv.VerifTapeEnd(&d)
+}
+
+//@ lemma lemmaMirrorRegisterRequest
+//@   requires pl != nil && out != nil && pl != out && pl.Object != nil && !tapeDropped
+//@   requires out.ObjectType == 0 && len(out.TemplateAttribute.Name) == 0 && len(out.TemplateAttribute.Attribute) == 0 && out.Object == nil
+//@   usebody (*Encoder).Struct$1
+//@   usebody (*Decoder).Struct$1
+//@   ensures !tapeDropped
+//@   ensures err == nil ==> end && out.ObjectType == pl.ObjectType && out.Object == pl.Object
+//@   ensures err == nil ==> len(out.TemplateAttribute.Attribute) == len(pl.TemplateAttribute.Attribute) && arr(out.TemplateAttribute.Attribute) == arr(pl.TemplateAttribute.Attribute)
+
+func lemmaMirrorRegisterRequest(pl, out *RegisterRequestPayload) (err error, end bool) {
+	e := ttlv.VerifModelEncoder()
+	e.TagAny(kmip.TagRequestPayload, pl)
+	d := ttlv.VerifModelDecoder(&e)
+	err = out.TagDecodeTTLV(&d, kmip.TagRequestPayload)
+	return err, ttlv.VerifTapeEnd(&d)
+}
